@@ -245,3 +245,31 @@ package db
 //@   ghost update @bk.Finish#2: finErr = result
 //@   ensures [nil-means-copied] result == nil ==> (stepDone && finErr == nil)
 //@   ensures [step-error-returned] stepErr != nil ==> result == stepErr
+//
+// ---- C30: values keep their type and value between SQLite and the API ---------------------------------
+// parametersToValues: each request parameter is bound under its own name with the very value it
+// carries (64-bit integer, float, boolean, text, blob, NULL), position and count preserved.
+//@ func parametersToValues
+//@   safe
+//@   requires [elems] forall j int :: (0 <= j && j < len(parameters)) ==> parameters[j] != nil
+//@   assert @sql.Named#1: [int-bound-as-is] arg0 == parameters[i].Name && arg1 == w.I
+//@   assert @sql.Named#2: [float-bound-as-is] arg0 == parameters[i].Name && arg1 == w.D
+//@   assert @sql.Named#3: [bool-bound-as-is] arg0 == parameters[i].Name && arg1 == w.B
+//@   assert @sql.Named#4: [blob-bound-as-is] arg0 == parameters[i].Name && arg1 == w.Y
+//@   assert @sql.Named#5: [text-bound-as-is] arg0 == parameters[i].Name && arg1 == w.S
+//@   assert @sql.Named#6: [null-bound-as-null] arg0 == parameters[i].Name
+//@   ensures [count] (result1 == nil && parameters != nil) ==> len(result0) == len(parameters)
+//
+// normalizeRowParameters: what the driver hands back per column (int64, float64, bool, string,
+// []byte, nil) becomes the parameter of the same kind with the same value; in particular a blob
+// stays a blob and text stays text, whatever the declared column type says.
+//@ func normalizeRowParameters
+//@   safe
+//@   requires [lens] len(row) <= len(types)
+//@   assert after @set:values[i]#2: [int64-kept] typeis(values[i].Value, "*rq/command/proto.Parameter_I") && as(values[i].Value, "*rq/command/proto.Parameter_I").I == val
+//@   assert after @set:values[i]#3: [float-kept] typeis(values[i].Value, "*rq/command/proto.Parameter_D") && as(values[i].Value, "*rq/command/proto.Parameter_D").D == val
+//@   assert after @set:values[i]#4: [bool-kept] typeis(values[i].Value, "*rq/command/proto.Parameter_B") && as(values[i].Value, "*rq/command/proto.Parameter_B").B == val
+//@   assert after @set:values[i]#5: [text-kept] typeis(values[i].Value, "*rq/command/proto.Parameter_S") && as(values[i].Value, "*rq/command/proto.Parameter_S").S == val
+//@   assert after @set:values[i]#6: [blob-kept] typeis(values[i].Value, "*rq/command/proto.Parameter_Y") && as(values[i].Value, "*rq/command/proto.Parameter_Y").Y == val
+//@   assert after @set:values[i]#7: [blob-kept] typeis(values[i].Value, "*rq/command/proto.Parameter_Y") && as(values[i].Value, "*rq/command/proto.Parameter_Y").Y == val
+//@   ensures [count] result1 == nil ==> len(result0) == len(types)
